@@ -272,18 +272,26 @@ func c16bGen(rt *rapid.T) e4Case {
 	// give goroutines left over from earlier connections their chance to act, then sample
 	c.Steps = append(c.Steps, e4Step{Kind: "settle"}, e4Step{Kind: "sleep", Extra: c.Cfg.PingMs * 1000 * rapid.IntRange(2, 4).Draw(rt, "linger")}, e4Step{Kind: "settle"}, e4Step{Kind: "sample"})
 	if rapid.Bool().Draw(rt, "disconnect") {
+		if rapid.Bool().Draw(rt, "pendingAtDisconnect") {
+			// a request whose acknowledgement is late keeps the task goroutine busy while Disconnect is called
+			idx++
+			c.Faults = append(c.Faults, e4Fault{Kind: "dropAck", Conn: n + 1, Type: rtPubAck, Nth: rapid.IntRange(1, 2).Draw(rt, "nthAck")})
+			c.Steps = append(c.Steps, e4Step{Kind: "pub", QoS: 1, Topic: "t/late", Idx: idx}, e4Step{Kind: "pub", QoS: 1, Topic: "t/late", Idx: idx + 1}, e4Step{Kind: "sleep", Extra: 300})
+			idx++
+		}
 		c.Steps = append(c.Steps, e4Step{Kind: "disconnect"}, e4Step{Kind: "sleep", Extra: c.Cfg.PingMs * 1000 * 2}, e4Step{Kind: "sample"})
 	}
 	return c
 }
 
 type c16Sample struct {
-	Seq       int64
-	Conn      int
-	Healthy   bool
-	Err       error
-	DoneOpen  bool
-	AfterDisc bool
+	Seq             int64
+	Conn            int
+	Healthy         bool
+	Err             error
+	DoneOpen        bool
+	AfterDisc       bool
+	TransportClosed bool
 }
 
 func c16bOracle(r *e4Result) string {
@@ -300,8 +308,8 @@ func c16bOracle(r *e4Result) string {
 			if s.Err != nil {
 				return fmt.Sprintf("connection c%d was healthy and then gracefully disconnected, but its Err() = %v (sampled at #%d)", s.Conn, s.Err, s.Seq)
 			}
-			if s.DoneOpen {
-				return fmt.Sprintf("connection c%d was disconnected but its Done() is still open (sampled at #%d)", s.Conn, s.Seq)
+			if s.DoneOpen && s.TransportClosed {
+				return fmt.Sprintf("connection c%d was disconnected and its transport is closed, but its Done() is still open (sampled at #%d)", s.Conn, s.Seq)
 			}
 		}
 	}
